@@ -82,6 +82,10 @@ type kvElection struct {
 	onPromote func(ctx context.Context, token string)
 	onDemote  func()
 
+	// promoteStarted holds a chan struct{} that is closed when the current
+	// term's OnPromote goroutine is about to invoke the callback.
+	promoteStarted atomic.Value
+
 	// Connection monitoring
 	connectionMonitor ConnectionMonitor
 	disconnectHandler *disconnectHandler
@@ -559,6 +563,10 @@ func (e *kvElection) becomeLeader(token string, rev uint64) {
 				zap.String("token", token),
 			)...,
 		)
+		// OnDemote must never be invoked for a term before that term's OnPromote:
+		// the goroutine below may be scheduled late, so demotions wait for it.
+		started := make(chan struct{})
+		e.promoteStarted.Store(started)
 		wg.Add(1)
 		go func() {
 			defer wg.Done()
@@ -577,6 +585,7 @@ func (e *kvElection) becomeLeader(token string, rev uint64) {
 
 			promoteCtx, cancel := context.WithCancel(termCtx)
 			defer cancel()
+			close(started)
 			onPromote(promoteCtx, token)
 		}()
 	}
@@ -1145,7 +1154,18 @@ func (e *kvElection) OnPromote(fn func(ctx context.Context, token string)) {
 func (e *kvElection) OnDemote(fn func()) {
 	e.mu.Lock()
 	defer e.mu.Unlock()
-	e.onDemote = fn
+	if fn == nil {
+		e.onDemote = nil
+		return
+	}
+	e.onDemote = func() {
+		// The two callbacks alternate, starting with a promotion: a term that
+		// ends before its OnPromote goroutine got to run still sees OnPromote first.
+		if started, ok := e.promoteStarted.Load().(chan struct{}); ok {
+			<-started
+		}
+		fn()
+	}
 }
 
 // validateToken checks if the current local token matches the token in KV store.
